@@ -2782,3 +2782,49 @@ variant('b-orig-f28-channel-cancel-written-for-an-unopened-channel', ['C08'], H 
 variant('b-channel-early-credit-dropped', ['C08', 'C06'], H + 'request_channel_requester.py',
         "            if n > 0:\n                self.initial_request_n(min(self._initial_request_n + n, MAX_REQUEST_N))\n\n            return\n\n        super().request(n)",
         "            return\n\n        super().request(n)", ('C08.m', 'RequestChannelRequester.request'))
+
+# round 15 --------------------------------------------------------------------------------------------------------
+# C16.a / C16.c no truncation of a floating-point period (seed C16o)
+variant('b-milliseconds-truncated-from-float', ['C16', 'C14'], 'rsocket/datetime_helpers.py',
+        "round(period.total_seconds() * 1000)", "int(period.total_seconds() * 1000)", ('C16.a', 'to_milliseconds'))
+variant('t-milliseconds-int-of-round', ['C16', 'C14', 'C15'], 'rsocket/datetime_helpers.py',
+        "round(period.total_seconds() * 1000)", "int(round(period.total_seconds() * 1000))", kind='twin')
+variant_multi('b-setup-periods-inlined-with-int', ['C16'], [
+    ('rsocket/frame_builders.py', "    setup.keep_alive_milliseconds = to_milliseconds(keep_alive_period)\n",
+     "    setup.keep_alive_milliseconds = int(keep_alive_period.total_seconds() * 1000)\n"),
+    ('rsocket/frame_builders.py', "    setup.max_lifetime_milliseconds = to_milliseconds(max_lifetime_period)\n",
+     "    setup.max_lifetime_milliseconds = int(max_lifetime_period.total_seconds() * 1000)\n")],
+    expect=('C16.c', 'keep_alive_milliseconds'))
+variant_multi('t-setup-periods-inlined-with-round', ['C16', 'C15'], [
+    ('rsocket/frame_builders.py', "    setup.keep_alive_milliseconds = to_milliseconds(keep_alive_period)\n",
+     "    setup.keep_alive_milliseconds = round(keep_alive_period.total_seconds() * 1000)\n"),
+    ('rsocket/frame_builders.py', "    setup.max_lifetime_milliseconds = to_milliseconds(max_lifetime_period)\n",
+     "    setup.max_lifetime_milliseconds = round(max_lifetime_period.total_seconds() * 1000)\n")],
+    kind='twin')
+
+# C17.b / C11.e _close_transport exits without close() only when no transport was obtained (seed C17o)
+variant('b-close-transport-skipped-when-peer-silent', ['C17', 'C11'], 'rsocket/rsocket_base.py',
+        "    async def _close_transport(self):\n",
+        "    async def _close_transport(self):\n        if not self.is_server_alive():\n            return\n\n",
+        ('', 'no exit without close()'))
+variant('b-close-transport-skipped-when-closing', ['C17', 'C11'], 'rsocket/rsocket_base.py',
+        "            if transport is not None:\n                try:\n                    await transport.close()",
+        "            if transport is not None and not self._is_closing:\n                try:\n                    await transport.close()",
+        ('', '_close_transport'))
+
+# C11.c dispose() from the state the synthetic ERROR leaves (seed C11o)
+variant_multi('b-channel-error-marks-sent-dispose-skips', ['C11'], [
+    (H + 'request_cahnnel_common.py',
+     "            self.remote_subscriber.on_error(error_frame_to_exception(frame))\n            self.mark_completed_and_finish(received=True)\n",
+     "            self.remote_subscriber.on_error(error_frame_to_exception(frame))\n            self.mark_completed_and_finish(received=True, sent=True)\n"),
+    (H + 'request_cahnnel_common.py', "    def dispose(self):\n",
+     "    def dispose(self):\n        if self._sent_complete:\n            return\n\n")],
+    expect=('C11.c', 'synthetic ERROR then dispose()'))
+variant('b-channel-dispose-skips-after-peer-ended', ['C11'], H + 'request_cahnnel_common.py',
+        "    def dispose(self):\n", "    def dispose(self):\n        if self._received_complete:\n            return\n\n",
+        ('C11.c', 'synthetic ERROR then dispose()'))
+
+# C08.l shared into C13 (seed C13o)
+variant('b-stream-error-leaves-requester-live', ['C13', 'C08', 'C17'], H + 'request_stream_requester.py',
+        "        elif isinstance(frame, ErrorFrame):\n            self._terminated = True\n",
+        "        elif isinstance(frame, ErrorFrame):\n", ('C08.l', 'ErrorFrame'))
